@@ -45,13 +45,13 @@ type c18Case struct {
 }
 
 var c18Shapes = map[string][]bool{ // true = permit
-	"none":          nil,
-	"only-permits":  {true, true},
-	"only-denies":   {false, false},
+	"none":           nil,
+	"only-permits":   {true, true},
+	"only-denies":    {false, false},
 	"permits-denies": {true, true, false, false},
 	"deny-in-middle": {true, false, true, false},
-	"single-deny":   {false},
-	"single-permit": {true},
+	"single-deny":    {false},
+	"single-permit":  {true},
 }
 var c18ShapeOrder = []string{"none", "only-permits", "only-denies", "permits-denies", "deny-in-middle", "single-deny", "single-permit"}
 var c18PartCombos = []string{"v4", "v4+v6", "v4+raw", "v4+v6+raw", "v6+raw", "raw"}
@@ -333,7 +333,7 @@ func c18BadCases() []*c18Case {
 		"router.raw": "object-group network zz9\n network-object host 10.7.0.1\n" +
 			"access-list a1 extended permit ip object-group zz9 any4\naccess-group a1 in interface inside\n"})
 	mk("ASA", "name-clash-acl-other-interface", "a1", asaDev+"interface Ethernet0/2\n nameif outside\n", map[string]string{
-		"router": asaV4,
+		"router":     asaV4,
 		"router.raw": "access-list a1 extended permit ip host 10.7.0.1 any4\naccess-group a1 out interface outside\n"})
 	mk("ASA", "tunnel-group-map-in-raw", "tunnel-group-map", asaDev, map[string]string{"router": asaV4,
 		"router.raw": "tunnel-group-map default-group zz9\ntunnel-group zz9 type ipsec-l2l\n"})
